@@ -48,13 +48,14 @@ Theorem C18_ibc_error_points :
 Proof. exact mw_error_points. Qed.
 Print Assumptions C18_ibc_error_points.
 
-(* inbound bridge call: nothing the failed inner step wrote survives (conversion of the first i coins,
-   contract storage, …): the result is the refund phase run on the state right after the deposits *)
+(* inbound bridge call: nothing the failed inner step wrote survives (conversion of the first i coins, contract
+   storage, …): the result is hand-over + refund run on the state right after the deposits *)
 Theorem C18_bridgecall_inner_discarded :
   forall call m s s1 c,
   run_steps (map (deposit_one (receiver m)) (m_tokens m)) s = Ok s1 ->
   bridge_call_evm call m (base_coins (m_tokens m)) s1 = Err c ->
-  bridge_call_handler call m s = failed_refund m (base_coins (m_tokens m)) s1.
+  bridge_call_handler call m s =
+  bind (hand_over m (base_coins (m_tokens m)) s1) (failed_refund m (base_coins (m_tokens m))).
 Proof. exact bch_inner_discarded. Qed.
 Print Assumptions C18_bridgecall_inner_discarded.
 
@@ -76,56 +77,45 @@ Theorem C18_bridgecall_fail_in_call :
 Proof. exact bce_fail_call. Qed.
 Print Assumptions C18_bridgecall_fail_in_call.
 
-(* designated outcome reached — guarded: the address that received the deposits is the refund address *)
-Theorem C18_bridgecall_designated_same_holder :
+(* THE PROPERTY for the inbound bridge call, unguarded: for every callee, every claim (any tokens, duplicates, any
+   receiver / refund address) and every failure point of the inner step, the transaction succeeds and the state is
+   exactly the designated outcome: claim consumed, one refund record for the deposited amounts, every balance of every
+   holder (users, module accounts, supplies) as before, contract storage untouched *)
+Theorem C18_bridgecall_designated :
   forall call m s c,
-  receiver m = m_refund m -> 0 <= m_refund m ->
+  0 <= receiver m -> 0 <= m_refund m ->
   (forall t a, In (t, a) (m_tokens m) -> registered s t = true) ->
-  (forall t, 0 <= bal s (m_refund m, Base, t)) ->
+  (forall t, 0 <= bal s (receiver m, Base, t)) -> (forall t, 0 <= bal s (m_refund m, Base, t)) ->
   timeout_ok s = true -> pendingc s (m_nonce m) = true ->
   (forall s1, run_steps (map (deposit_one (receiver m)) (m_tokens m)) (del_pending s (m_nonce m)) = Ok s1 ->
               bridge_call_evm call m (base_coins (m_tokens m)) s1 = Err c) ->
   exists s', execute_claim_tx call m s = (s', true) /\ bst_eq s' (bc_designated m s).
-Proof. exact bch_same_holder_designated. Qed.
-Print Assumptions C18_bridgecall_designated_same_holder.
+Proof. exact bch_designated. Qed.
+Print Assumptions C18_bridgecall_designated.
 
-(* the unguarded statement is FALSE of the code as it is: receiver <> refund address *)
-Theorem C18_bridgecall_refuted :
-  exists call m s post, execute_claim_tx call m s = (post, true) /\
-    (exists c s1, run_steps (map (deposit_one (receiver m)) (m_tokens m)) (del_pending s (m_nonce m)) = Ok s1 /\
-                  bridge_call_evm call m (base_coins (m_tokens m)) s1 = Err c) /\
-    ~ bst_eq post (bc_designated m s).
-Proof. exact bch_refuted. Qed.
-Print Assumptions C18_bridgecall_refuted.
-
-(* what happens instead, exactly, for every failed inner step: deposits stay with the receiver, the refund is
-   taken from the refund address' own balance, one refund record … *)
-Theorem C18_bridgecall_failed_inner_exact :
-  forall call m s c s',
-  (forall t a, In (t, a) (m_tokens m) -> registered s t = true) ->
-  (forall s1, run_steps (map (deposit_one (receiver m)) (m_tokens m)) s = Ok s1 ->
-              bridge_call_evm call m (base_coins (m_tokens m)) s1 = Err c) ->
-  bridge_call_handler call m s = Ok s' ->
-  (forall k, bal s' k = bal s k + D (receiver m) (total (m_tokens m)) k - D (m_refund m) (total (m_tokens m)) k) /\
-  outcalls s' = outcalls s ++ [{| oc_id := next_id s; oc_sender := m_refund m; oc_refund := m_refund m;
-                                  oc_tokens := base_coins (m_tokens m); oc_event := m_nonce m |}] /\
-  next_id s' = next_id s + 1 /\ evmst s' = evmst s /\ (forall n, pendingc s' n = pendingc s n).
-Proof. exact bch_failed_inner_ok. Qed.
-Print Assumptions C18_bridgecall_failed_inner_exact.
-
-(* … or the handler errors (refund address cannot pay) and the transaction keeps nothing at all *)
+(* a handler error (unknown token in the deposit loop) is not tolerated: the transaction keeps nothing at all *)
 Theorem C18_bridgecall_error_reverts :
   forall call m s e, execute_claim call m s = Err e -> execute_claim_tx call m s = (s, false).
 Proof. exact bch_failed_inner_err_reverts. Qed.
 Print Assumptions C18_bridgecall_error_reverts.
 
+(* regression, labelled: the handler as it was BEFORE the fix "a failed inbound bridge call refunds the coins that were
+   actually deposited" (finding C18-1, snapshot 6774338) did not have this property *)
+Theorem C18_bridgecall_prefix_variant_refuted :
+  exists call m s post, execute_claim_tx_prefix call m s = (post, true) /\ ~ bst_eq post (bc_designated m s).
+Proof. exact prefix_refuted. Qed.
+Print Assumptions C18_bridgecall_prefix_variant_refuted.
+
 Theorem C18_nonvacuous :
   (let (post, ok) := execute_claim_tx wit_call nv_msg wit_state_poor in
    ok = true /\ bal post (1, Base, 0) = 0 /\ bal post (1, Base, 1) = 0 /\ evmst post = 0 /\
    map oc_tokens (outcalls post) = [[(0, 10); (1, 7)]] /\ pendingc post 7 = false) /\
+  (let (post, ok) := execute_claim_tx wit_call nv_msg2 wit_state_poor in
+   ok = true /\ bal post (1, Base, 0) = 0 /\ bal post (2, Base, 1) = 0 /\ evmst post = 0 /\
+   map oc_refund (outcalls post) = [2] /\ pendingc post 7 = false) /\
   (let s := {| bal := fun _ => 0; registered := fun _ => true; enabled := fun t => t =? 0;
                pendingc := fun n => n =? 7; outcalls := []; next_id := 1; timeout_ok := true; evmst := 0 |} in
-   let (post, ok) := execute_claim_tx (fun c => Ok c) nv_msg s in
+   let (post, ok) := execute_claim_tx (fun c => Ok c) nv_msg2 s in
    ok = true /\ bal post (1, Erc, 0) = 0 /\ bal post (1, Base, 0) = 0 /\ length (outcalls post) = 1%nat) /\
   try_attestation Z (fun x => Err (x + 1)) (fun x => x + 10) (fun x => x) 0 = (10, false) /\
   gov_execute Z [(fun x => Ok (x + 1)); (fun x => Err (x + 1)); (fun x => Ok (x + 1))] (fun x => x + 10) (fun b x => if b then x + 100 else x + 200) 0 = (210, false) /\
